@@ -1,36 +1,43 @@
 import NGF.Model.Store
+import NGF.Model.StoreHandler
 import NGF.Model.StoreJudge
 import NGF.Model.Footprint
 import NGF.Model.Proto
 /-
 Driver entry for C01.
   model line : `batches=<batch>|<batch>|…`   batch = `-` | `[!]<ev>,<ev>,…` (`!` = first batch of a restarted
-               controller), ev = `<Kind>:<u|d>:<key>:<hasPred><verdict>`
-  output     : `pend=<n,…|…> store=<n,…|…> ct=<n,…>`  |  `bad-op` | `bad-table <Kind>`
+               controller), ev = `<Kind>:<u|d>:<key>:<hasPred><verdict>` — EVERY event handed to `HandleEventBatch`
+               (key 0 = the configured special name of the kind; bits `--` = the real handler did not hand the event
+               to the change processor, so no predicate answer was observed)
+  output     : `pend=<n,…|…> store=<n,…|…> fwd=<n,…|…> emit=<n,…|…> ct=<n,…>`  |  `bad-op` | `bad-table <Kind>`
+               (the events go through `parseAndCapture treeHandler`: `fwd` = reached Capture…Change, `emit` = status
+               groups issued by the filter callbacks, folded per captured event + tail: `emitRuns`)
   judge line : `inert=<ct:files:status:reloads,…> a=<map> f=<map> sa=<map> sf=<map> fb=<map>`  (map = `k=v,…` | `-`)
   output     : `ok` | `fail <clause> <where>`
 -/
 namespace NGF.Store
 open NGF.Proto
 
-def parseEv (s : String) : Option (TEvent × Bool) :=
+/-- event, observed `hasPred` bit (none = not observed) -/
+def parseEv (s : String) : Option (TEvent × Option Bool) :=
   match s.splitOn ":" with
   | [k, op, key, bits] =>
     match key.toNat?, bits.toList with
     | some n, [hp, v] =>
       let obj := if op == "u" then some (some ()) else if op == "d" then some none else none
-      obj.map fun o => ({ kind := k, key := n, obj := o, oracle := v == '1' }, hp == '1')
+      obj.map fun o => ({ kind := k, key := n, obj := o, oracle := v == '1' }, if hp == '-' then none else some (hp == '1'))
     | _, _ => none
   | _ => none
 
 def showCols (l : List (List Nat)) : String :=
   "|".intercalate (l.map showNatList)
 
-/-- Replays all batches. -/
-def replay : TProc → List String → List (List Nat) → List (List Nat) → List Nat → Option String
-  | _, [], pend, col, cts =>
-      some s!"pend={showCols pend.reverse} store={showCols col.reverse} ct={showNatList cts.reverse}"
-  | p, b :: bs, pend, col, cts =>
+/-- Replays all batches through the handler layer (`parseAndCapture treeHandler`). -/
+def replay : TProc → List String → List BatchTrace → Option String
+  | _, [], ts =>
+      let ts := ts.reverse
+      some s!"pend={showCols (ts.map (·.pend))} store={showCols (ts.map (·.col))} fwd={showCols (ts.map (·.fwd))} emit={showCols (ts.map fun t => emitRuns t.fwd t.emit 0)} ct={showNatList (ts.map (·.ct))}"
+  | p, b :: bs, ts =>
       let restart := b.startsWith "!"
       let body := if restart then (b.drop 1).toString else b
       let p0 := if restart then traceInit else p
@@ -38,21 +45,27 @@ def replay : TProc → List String → List (List Nat) → List (List Nat) → L
       match toks.mapM parseEv with
       | none => none
       | some evs =>
-        match evs.find? (fun (e, hp) => traceOps.hasPred e.kind != hp || !allKinds.contains e.kind) with
+        -- the kind table: an event must be of a kind registered with the processor or with the handler only, and
+        -- the observed `hasPred` bit (where the real processor was asked) must be the table's
+        match evs.find? (fun (e, hp) =>
+            !(allKinds.contains e.kind || handlerOnlyKinds.contains e.kind) ||
+            (match hp with | some b => traceOps.hasPred e.kind != b | none => false)) with
         | some (e, _) => some ("bad-table " ++ e.kind)
         | none =>
-          let (p', pd, cl, ct) := traceBatch p0 (evs.map (·.1)) [] []
-          replay p' bs (pd :: pend) (cl :: col) (ct :: cts)
+          let (p', t) := traceBatchH treeHandler p0 (evs.map (·.1)) {}
+          replay p' bs (t :: ts)
 
 def modelLine (line : String) : String :=
   match field (line.splitOn " ") "batches" with
-  | some b => (replay traceInit (b.splitOn "|") [] [] []).getD "bad-op"
+  | some b => (replay traceInit (b.splitOn "|") []).getD "bad-op"
   | none => "bad-op"
 
 /-! ### footprint mode: the referenced sets recomputed by the footprint model from the graph core
   line   : `winner=<nn|-> routes=<v;p+p;b+b>|… sels=<l+l>|… nss=<nn>:<l+l>|… hasgw=<0|1> btps=<ns;n;wk;kind;group;name>|… ls=<proto;ref;allowed>|…`
            (`-` = empty list, `~` = empty string)
-  output : `svcs=<…> unref=<…> nss=<…> cms=<…> seccand=<…>` (comma separated, `-` = empty) -/
+           + the fields of `footprintExtra`
+  output : `svcs=<…> unref=<…> nss=<…> nssvalid=<…> cms=<…> seccand=<…> nprefs=<…> polrel=<…> polgraph=<…> polfirst=<…>`
+           (comma separated, `-` = empty; `nssvalid`/`polfirst` = what the weakened variants would reference) -/
 
 def lst (s : String) (sep : String) : List String :=
   if s == "-" || s == "" then [] else s.splitOn sep
@@ -61,6 +74,50 @@ def unTilde (s : String) : String := if s == "~" then "" else s
 
 def showSet (l : List String) : String :=
   if l.isEmpty then "-" else ",".intercalate l.eraseDups
+
+/-- a selector listener: `<valid 0|1>;<label+label>` (a bare label list = valid) -/
+def parseNsListener (tok : String) : NGF.Footprint.NsListener :=
+  match tok.splitOn ";" with
+  | [v, labels] => { valid := v == "1", sel := (lst labels "+").map fun t => (t, "") }
+  | _ => { valid := true, sel := (lst tok "+").map fun t => (t, "") }
+
+/-- NginxProxy and NGF policies: `gcref=<-|none|group;kind;name> nps=<name,…> gws=<nn+…> rkeys=<Kind;nn>|… refsvcs=<nn+…>
+pols=<key;ns;g^k^n+…>|…`  →  `nprefs=<…> polrel=<…> polgraph=<…>` -/
+def footprintExtra (fs : List String) : Option String :=
+  open NGF.Footprint in
+  match field fs "gcref", field fs "nps", field fs "gws", field fs "rkeys", field fs "refsvcs", field fs "pols" with
+  | some gcref, some nps, some gws, some rkeys, some refsvcs, some pols =>
+    let gc? : Option (Option (Option ParamsRef)) :=
+      if gcref == "-" then some none
+      else if gcref == "none" then some (some none)
+      else match gcref.splitOn ";" with
+        | [g, k, n] => some (some (some { group := unTilde g, kind := unTilde k, name := unTilde n }))
+        | _ => none
+    let routes? := (lst rkeys "|").mapM fun r =>
+      match r.splitOn ";" with
+      | [k, nn] => some (k, nn)
+      | _ => none
+    let parseRef : String → Option TargetRef := fun t =>
+      match t.splitOn "^" with
+      | [g, k, n] => some { group := unTilde g, kind := unTilde k, name := unTilde n }
+      | _ => none
+    let pols? : Option (List (String × PolicyM)) := (lst pols "|").mapM fun q =>
+      match q.splitOn ";" with
+      | [key, ns, refs] =>
+        ((lst refs "+").mapM parseRef).map fun rs => (key, ({ ns := unTilde ns, refs := rs, payload := 0 } : PolicyM))
+      | _ => none
+    match gc?, routes?, pols? with
+    | some gc, some routes, some ps =>
+      let npc : NpCore := { gatewayClass := gc }
+      let pc : PolCore := { hasWinner := !(lst gws "+").isEmpty, gateways := lst gws "+", routes := routes,
+                            refSvcs := lst refsvcs "+" }
+      let nprefs := ((lst nps ",").map unTilde).filter (npReferenced npc)
+      let polrel := (ps.filter fun (_, q) => policyInGraph pc q || policyRelevant pc q).map (·.1)
+      let polgraph := (ps.filter fun (_, q) => policyInGraph pc q).map (·.1)
+      let polfirst := (ps.filter fun (_, q) => policyRelevantFirst pc q).map (·.1)
+      some s!"nprefs={showSet nprefs} polrel={showSet polrel} polgraph={showSet polgraph} polfirst={showSet polfirst}"
+    | _, _, _ => none
+  | _, _, _, _, _, _ => none
 
 open NGF.Footprint in
 def footprintLine (line : String) : String :=
@@ -91,8 +148,11 @@ def footprintLine (line : String) : String :=
       let core : SvcCore := { winner := if w == "-" then none else some w, routes := routes }
       let refd := referencedServices core
       let unref := (readServices core).filter (!refd.contains ·)
-      let nc : NsCore := { sels := (lst sels "|").map fun s => (lst s "+").map fun t => (t, "") }
-      s!"svcs={showSet refd} unref={showSet unref} nss={showSet (referencedNamespaces nc nsl)} cms={showSet (referencedConfigMaps { hasGateway := hg == "1", btps := bt })} seccand={showSet (secretCandidates { listeners := lsn })}"
+      let nc : NsCore := { listeners := (lst sels "|").map parseNsListener }
+      let base := s!"svcs={showSet refd} unref={showSet unref} nss={showSet (referencedNamespaces nc nsl)} nssvalid={showSet ((nsl.filter fun p => nsReferencedValidOnly nc p.2).map (·.1))} cms={showSet (referencedConfigMaps { hasGateway := hg == "1", btps := bt })} seccand={showSet (secretCandidates { listeners := lsn })}"
+      match footprintExtra fs with
+      | some x => base ++ " " ++ x
+      | none => "bad-op"
     | _, _, _, _ => "bad-op"
   | _, _, _, _, _, _, _ => "bad-op"
 
